@@ -26,7 +26,7 @@ m = {
  "version": 1,
  "setup_cmd": "cd /verif/govc && GOFLAGS=-mod=mod GOPROXY=off GOSUMDB=off GOTOOLCHAIN=local go build -o ../bin/govc .",
  "hooks": {"guard": "verif", "enable": "-tags verif (comment-only contract file verif_contracts.go and ghost spec file verif_spec.go per package; loaded by govc through go/packages with the tag on)",
-           "baseline_off_cmd": "cd /repo && GOFLAGS=-mod=mod GOPROXY=off GOSUMDB=off go test -vet=off -count=1 ./...",
+           "baseline_off_cmd": "cd /repo && GOFLAGS=-mod=mod GOPROXY=off GOSUMDB=off go test -json -vet=off -count=1 -timeout 25m ./...",
            "source_commits": hooks, "add_only": True},
  "engines": [{"name": "govc", "path": "govc/", "serves_properties": [c['property_id'] for c in checks],
               "kind_free_text": "own deductive verifier for the Go subset mxj uses: go/packages+go/ssa (NaiveForm) of /repo's working tree -> symbolic execution with state merging, loops cut at invariants, modular calls by contract -> SMT-LIB obligations -> portfolio z3 5.1.0 / cvc5 1.0 / z3 4.8.12"}],
